@@ -96,11 +96,21 @@ func scalarReflectFromGo(schema *schema_j5pb.Field, value interface{}) (protoref
 		}
 
 		if numVal, ok := value.(json.Number); ok {
-			i64, err := numVal.Int64()
-			if err != nil {
-				return pv, err
+			switch st.Integer.Format {
+			case schema_j5pb.IntegerField_FORMAT_UINT32, schema_j5pb.IntegerField_FORMAT_UINT64:
+				// the upper half of uint64 does not fit in an int64
+				u64, err := strconv.ParseUint(numVal.String(), 10, 64)
+				if err != nil {
+					return pv, err
+				}
+				value = u64
+			default:
+				i64, err := numVal.Int64()
+				if err != nil {
+					return pv, err
+				}
+				value = i64
 			}
-			value = i64
 		}
 
 		switch st.Integer.Format {
